@@ -76,11 +76,11 @@ def audit(name: str) -> dict:
         f.unlink(missing_ok=True)
     out = common._filter(p.stdout + p.stderr)
     good = []
-    for m in re.finditer(r"^'(.+?)' depends on axioms: \[([^\]]*)\]", out, re.S | re.M):
+    for m in re.finditer(r"^'([^\n]+?)' depends on axioms: \[([^\]]*)\]", out, re.S | re.M):
         ax = {a.strip() for a in m.group(2).replace("\n", " ").split(",") if a.strip()}
         if ax <= common.ALLOWED_AXIOMS:
             good.append(m.group(1))
-    for m in re.finditer(r"^'(.+?)' does not depend on any axioms", out, re.M):
+    for m in re.finditer(r"^'([^\n]+?)' does not depend on any axioms", out, re.M):
         good.append(m.group(1))
     return {"obligations": names, "discharged": [n for n in names if n in good],
             "bad": [n for n in names if n not in good], "raw": out}
